@@ -112,8 +112,8 @@ Definition tk_admitted (f : N) : prog :=
 Definition tk_decide (f len : N) : prog :=
   Step L_ZRANGE (fun s =>
     let z := r_zset s (rt_heap t) in
-    let admit := (len <? rt_k t) || (match z with e :: _ => snd e <=? f | [] => false end) in
-    if admit then (s, tk_admitted f) else (s, Done 1)).
+    let accept := (len <? rt_k t) || (match z with e :: _ => snd e <=? f | [] => false end) in
+    if accept then (s, tk_admitted f) else (s, Done 1)).
 
 Definition tk_counted (f : N) : prog :=
   Step L_ZCARD (fun s => (s, tk_decide f (N.of_nat (length (r_zset s (rt_heap t)))))).
